@@ -303,7 +303,14 @@ def load_known_findings() -> list[dict]:
     p = VERIF / "known_findings.json"
     srcs = ([p] if p.exists() else []) + sorted((VERIF / "known_findings.d").glob("*.json"))
     for f in srcs:
-        d = json.loads(f.read_text())
+        for attempt in range(5):  # a fragment may be mid-rewrite by its owner during development
+            try:
+                d = json.loads(f.read_text())
+                break
+            except (json.JSONDecodeError, FileNotFoundError):
+                if attempt == 4:
+                    raise
+                time.sleep(0.5)
         for e in d.get("findings", []):
             if e.get("id") not in seen:
                 seen.add(e.get("id"))
